@@ -279,7 +279,12 @@ def oracle_handles(script, obs):
     creations - removals."""
     issued = []       # (handle, epoch)
     epoch = 0
+    untracked = 0     # entities created by callback-free batch creations: no handle is handed out
     for k, (op, st) in enumerate(zip(script, obs)):
+        if st["err"] == 0 and op[0] in (3, 30) and nofn_flag(op) % 2 == 1:
+            untracked += op[1]
+        if st["err"] == 0 and op[0] == 13:
+            untracked = 0
         if st["err"] != 0 or st["err"] == -1:
             new = []
         else:
@@ -300,9 +305,35 @@ def oracle_handles(script, obs):
             continue
         alive_now = sum(1 for (h, e), f in zip(issued, flags) if e == epoch and f != 0)
         distinct_alive = len(set(h for (h, e), f in zip(issued, flags) if e == epoch and f != 0))
-        if st["used"] != distinct_alive:
-            return k, "world reports %d used entities, %d issued handles are alive" % (st["used"], distinct_alive)
+        if op[0] == 12 and untracked > 0:
+            # a batch removal may also remove entities nobody holds a handle of
+            left = st["used"] - distinct_alive
+            if not (0 <= left <= untracked):
+                return k, "world reports %d used entities, %d issued handles are alive, at most %d handle-less entities exist" % (st["used"], distinct_alive, untracked)
+            untracked = left
+        if st["used"] != distinct_alive + untracked:
+            return k, "world reports %d used entities, %d issued handles are alive (+%d created without handing out a handle)" % (st["used"], distinct_alive, untracked)
     return None
+
+
+def nofn_flag(op):
+    """The optional trailing flag of ops 3, 12, 30 (absent = 0; odd = no callback passed)."""
+    try:
+        if op[0] == 3:
+            return op[2] if len(op) > 2 else 0
+        if op[0] == 12:
+            i = 2
+            i += 1 + 2 * op[i]
+            return op[i] if len(op) > i else 0
+        if op[0] == 30:
+            i = 2
+            i += 1 + op[i]
+            i += 1 + 2 * op[i]
+            i += 1 + 2 * op[i]
+            return op[i] if len(op) > i else 0
+    except IndexError:
+        pass
+    return 0
 
 def oracle_alive_monotone(script, obs):
     """Once a handle is dead it never becomes alive again within its reset epoch."""
@@ -455,7 +486,7 @@ def oracle_callback_view(script, obs):
 # ---------------------------------------------------------------- per-property configuration
 
 PROPS = {
-    "C01": dict(streams=[("store", 120), ("batch", 60)], proj=proj_store, theorems=["Properties/C01.v"],
+    "C01": dict(streams=[("store", 120), ("batch", 60), ("relations", 60)], proj=proj_store, theorems=["Properties/C01.v"],
                 oracles=[oracle_go_checks], key_ops={5, 6, 7, 8, 9, 4, 31}),
     "C02": dict(streams=[("store", 100), ("shrink", 50)], proj=proj_handles, theorems=["Properties/C02.v"],
                 oracles=[oracle_handles, oracle_alive_monotone], key_ops={0, 1, 3, 4, 11, 12, 30}, special="codec"),
@@ -504,7 +535,20 @@ def run_stream(arkh, stream, seed, n, workdir, extra=()):
     os.makedirs(workdir, exist_ok=True)
     rc, out = sh([arkh, "gen", "-stream", stream, "-seed", str(seed), "-n", str(n), "-out", workdir] + list(extra), timeout=1800)
     if rc != 0:
-        return dict(ok=False, error="harness failed on stream %s: %s" % (stream, out[-2000:]), workdir=workdir)
+        # The harness died (a fatal runtime error is not a recoverable panic). Run again flushing every
+        # operation before it is executed: the last, incomplete script is the failing input.
+        crash = None
+        try:
+            sh([arkh, "gen", "-stream", stream, "-seed", str(seed), "-n", str(n), "-out", workdir] + list(extra), timeout=1800,
+               env=dict(ENV, ARKH_TRACE="1"))
+            blocks = read_blocks(os.path.join(workdir, "scripts.txt"))
+            if blocks:
+                crash = blocks[-1]
+        except Exception:
+            pass
+        m = re.search(r"(fatal error: [^\n]*|panic: [^\n]*|unexpected signal[^\n]*)", out)
+        return dict(ok=False, error="harness failed on stream %s: %s" % (stream, out[-2000:]), workdir=workdir, crash_script=crash,
+                    crash_reason=m.group(1) if m else "harness exited abnormally", stream=stream, seed=seed)
     summary = {}
     for line in out.splitlines():
         if line.startswith("{"):
@@ -747,8 +791,15 @@ def _run(pid, tier, seed, replay, cfg, mult, violations, notes, tmp, t0):
     op_hist = {}
     for run in runs:
         if not run["ok"]:
-            path = write_replay(pid, "stream", dict(detail=run["error"]))
-            violations.append((path, "no-failing-input-found"))
+            if run.get("crash_script"):
+                path = write_replay(pid, "script", dict(
+                    detail="the implementation dies with '%s' while executing the last operation of this script (stream %s, seed %d); the model executes it" % (
+                        run["crash_reason"], run["stream"], run["seed"]),
+                    script=run["crash_script"], how_to_run="bin/check %s --replay <this file>" % pid, output=run["error"][-1500:]))
+                violations.append((path, ""))
+            else:
+                path = write_replay(pid, "stream", dict(detail=run["error"]))
+                violations.append((path, "no-failing-input-found"))
             corr_broken = True
             continue
         rep = compare_run(run, cfg["proj"], cfg["oracles"])
@@ -799,6 +850,7 @@ def _run(pid, tier, seed, replay, cfg, mult, violations, notes, tmp, t0):
     sp = special.run(pid, cfg, tier, seed, arkh, tmp)
     if sp:
         coverage.update(sp.get("coverage", {}))
+        coverage["_known_lines"] = sp.get("known_lines", [])
         samples += sp.get("samples", [])
         for v in sp.get("violations", []):
             violations.append(v)
@@ -875,10 +927,9 @@ def _run(pid, tier, seed, replay, cfg, mult, violations, notes, tmp, t0):
 
     coverage["samples"] = samples or ["no sample"]
     coverage["notes"] = notes[:10]
-    kf = known_findings()
-    for k in kf.get("known", []):
-        if k.get("property") == pid:
-            print("KNOWN-FINDING: property=%s %s" % (pid, k.get("what", "")))
+    # known (recorded, not repaired) findings are reported when the run observed them (special.probes)
+    for line in coverage.pop("_known_lines", []):
+        print(line)
     coverage["_level"] = "proof" if thm_files else "other"
     if not thm_files:
         coverage["explanation"] = "no theorem file yet for this property: correspondence and oracles only"
